@@ -797,7 +797,7 @@ def _sexp_plain(ctx, t):
             return Fraction(1)
     t = toreal(t)
     it = find_ite(t)
-    if it is not None:
+    if it is not None and _count_ites(t, 7) <= 6:
         c, a, b = it.children()
         ea = _sexp_plain(ctx, z3.substitute(t, (it, a)))
         eb = _sexp_plain(ctx, z3.substitute(t, (it, b)))
@@ -891,6 +891,25 @@ def _slog_plain(ctx, u):
         ctx.keep.append(l)
         ctx.facts += [z3.Implies(u > 0, z3.And((u > 1) == (l > 0), (u == 1) == (l == 0)))]
     return l, pos
+
+
+def _count_ites(u, cap):
+    seen = set()
+    st = [u]
+    n = 0
+    while st:
+        e = st.pop()
+        i = e.get_id()
+        if i in seen:
+            continue
+        seen.add(i)
+        if z3.is_app(e):
+            if e.decl().kind() == z3.Z3_OP_ITE:
+                n += 1
+                if n >= cap:
+                    return n
+            st.extend(e.children())
+    return n
 
 
 def _small_ite_term(u, max_ites=3, max_size=80):
@@ -1226,11 +1245,16 @@ class Interp:
             return E(c2)
         if p in ("le_to", "lt_to"):
             return E(lambda a, b: cmp(p[:2], a, b, force=True))
-        if p == "and":
-            return E(lambda a, b: _bitop(band, a, b))
-        if p == "or":
-            return E(lambda a, b: _bitop(bor, a, b))
-        if p == "not":
+        if p in ("and", "or", "not", "xor"):
+            isint = np.issubdtype(_aval_dtype(e.outvars[0].aval), np.integer)
+            if isint and not all(all_conc(a) for a in ins):
+                return self._opaque(e, ins)   # bit tricks of the PRNG / uniform sampler: uninterpreted (congruence only)
+            if p == "and":
+                return E(lambda a, b: _bitop(band, a, b))
+            if p == "or":
+                return E(lambda a, b: _bitop(bor, a, b))
+            if p == "xor":
+                return E(lambda a, b: (split(a)[0] ^ split(b)[0]) if not (is_z(split(a)[0]) or is_z(split(b)[0])) else z3.Xor(toz(split(a)[0]), toz(split(b)[0])))
             return E(lambda a: bnot(split(a)[0]))
         if p == "select_n":
             if len(ins) == 3:
@@ -1462,7 +1486,7 @@ class Interp:
             return E(lift_fin(lambda *a: f(*[toreal(x) for x in a])))
         if p in ("random_bits", "random_split", "random_wrap", "random_unwrap", "random_fold_in", "random_seed",
                  "threefry2x32", "random_clone", "shift_right_logical", "shift_left", "bitcast_convert_type",
-                 "population_count", "xor", "erf_inv", "random_gamma", "nextafter"):
+                 "population_count", "erf_inv", "random_gamma", "nextafter", "shift_right_arithmetic", "clz"):
             return self._opaque(e, ins)
         if p == "pure_callback" or p == "debug_callback" or p == "io_callback":
             raise Unsupported(p)
